@@ -154,12 +154,18 @@ def patch():
 
     def n_add(self, itask):
         before = itask.identity in self.active_tasks.get(itask.point, {})
+        n0 = len(REC)
         r = o_add(self, itask)
+        # a runahead recomputation inside add_to_pool (future-trigger offsets) sees the pool WITH the new task:
+        # report it after the add
+        nested = [e for e in REC[n0:] if e["e"] == "limit"]
+        REC[n0:] = [e for e in REC[n0:] if e["e"] != "limit"]
         after = self.active_tasks.get(itask.point, {}).get(itask.identity) is itask
         if after and not before:
             ev("add", t=task_view(itask))
         else:
             ev("add_noop", id=tid(itask))
+        REC.extend(nested)
         return r
     TaskPool.add_to_pool = n_add
 
@@ -169,12 +175,17 @@ def patch():
         before = self.active_tasks.get(itask.point, {}).get(itask.identity) is itask
         view = task_view(itask) if before else None
         ev("remove_begin", id=tid(itask))
+        n0 = len(REC)
         r = o_rm(self, itask, reason)
+        # a runahead recomputation inside remove (future-trigger offsets) sees the pool WITHOUT the task
+        nested = [e for e in REC[n0:] if e["e"] == "limit"]
+        REC[n0:] = [e for e in REC[n0:] if e["e"] != "limit"]
         after = itask.identity in self.active_tasks.get(itask.point, {})
         if before and not after:
             ev("remove", t=view, reason=reason or "completed")
         else:
             ev("remove_noop", id=tid(itask), reason=reason or "completed")
+        REC.extend(nested)
         return r
     TaskPool.remove = n_rm
 
